@@ -11,6 +11,7 @@ import (
 	"go/ast"
 	"go/parser"
 	"go/token"
+	"go/types"
 	"os"
 	"path/filepath"
 	"sort"
@@ -236,6 +237,19 @@ func main() {
 	st := load(filepath.Join(*repo, "stanza"))
 	ok := true
 	for _, g := range []*genFile{genConsts(root, st)} {
+		if err := g.write(*out); err != nil {
+			fmt.Fprintln(os.Stderr, err)
+			ok = false
+		}
+	}
+	stInfo, stPkg := typecheck(st, "stanza", nil)
+	rootInfo, rootPkg := typecheck(root, "xmpp", map[string]*types.Package{"gosrc.io/xmpp/stanza": stPkg})
+	for _, g := range []*genFile{
+		genTr("TrStanza", st, stInfo, stPkg, []trFn{{"UnAckQueue", "Peek"}, {"UnAckQueue", "PeekN"}, {"UnAckQueue", "Pop"}, {"UnAckQueue", "PopN"},
+			{"UnAckQueue", "Push"}, {"UnAckQueue", "Empty"}, {"", "isInvalid"}, {"", "isUsernameValid"}, {"", "isDomainValid"}, {"", "NewJid"},
+			{"Jid", "Bare"}, {"Jid", "Full"}}),
+		genTr("TrRoot", root, rootInfo, rootPkg, []trFn{{"", "ensurePort"}}),
+	} {
 		if err := g.write(*out); err != nil {
 			fmt.Fprintln(os.Stderr, err)
 			ok = false
